@@ -166,6 +166,7 @@ var pureExternPrefixes = []string{
 	"(*github.com/cometbft/cometbft/abci/types.ResponseQuery).",
 	"(github.com/cosmos/cosmos-sdk/types.Context).VoteInfos",
 	"github.com/cosmos/cosmos-sdk/types.VerifyAddressFormat",
+	"(github.com/ethereum/go-ethereum/accounts/abi.Arguments).Pack",
 }
 
 var freshExternPrefixes = []string{
@@ -722,6 +723,22 @@ func (fc *FCtx) callByContract(c *FuncContract, fn *types.Func, sig *types.Signa
 	if c.Flags["may_panic"] != "" && !fc.mayPanic {
 		fc.oblige(st, "panic-free:callee", "false", "callee "+c.Key+" may panic", e.Pos())
 	}
+	// `//@ counts <param>`: call-history ghost. Every call (or `go`) of this function adds one to the entry of the map
+	// ghost Count_<function name> under the value of the named integer parameter - bookkeeping at the call site, so a
+	// caller's contract can say how many handlers were started for which id.
+	if pname := c.Flags["counts"]; pname != "" {
+		gname := "Count_" + fn.Name()
+		if g, ok := st.ghost[gname+gsufOf(gsuf)]; ok && g.S.Kind == KMap {
+			kv, okk := names[pname]
+			if !okk || kv.S.Kind != KInt {
+				oos("counts: parameter %s of %s is not an integer parameter", pname, c.Key)
+			}
+			nv := Val{T: app("mk_"+g.S.Name, fmt.Sprintf("(store %s %s true)", mpDom(g), kv.T), fmt.Sprintf("(store %s %s (+ (select %s %s) 1))", mpVal(g), kv.T, mpVal(g), kv.T)), S: g.S, GoT: g.GoT}
+			st.ghost[gname+gsufOf(gsuf)] = nv
+		} else {
+			oos("counts: ghost %s (a map from the parameter to a count) is not declared", gname)
+		}
+	}
 	// havoc frame
 	modAll := false
 	for _, m := range c.Modifies {
@@ -1136,3 +1153,5 @@ func (fc *FCtx) callCurried(e *ast.CallExpr, st *State) ([]Val, bool) {
 	li := &FuncInfo{Pkg: gi.Pkg, Lit: lit, Key: gi.Key + "$ret", Sig: lsig}
 	return fc.inlineCall(li, e, nil, st), true
 }
+
+func gsufOf(s string) string { return "" }
